@@ -62,6 +62,17 @@ impl<S> Sinc<S> {
     }
 }
 
+/// Verification hooks (guard: `--cfg rustaudio_dasp_verif`): read-only access to the private state.
+#[cfg(rustaudio_dasp_verif)]
+impl<S> Sinc<S> {
+    pub fn verif_idx(&self) -> usize {
+        self.idx
+    }
+    pub fn verif_frames(&self) -> &ring_buffer::Fixed<S> {
+        &self.frames
+    }
+}
+
 impl<S> Interpolator for Sinc<S>
 where
     S: ring_buffer::SliceMut,
